@@ -253,7 +253,9 @@ def c19(tier, replay=None):
                  # longer lists of distinguishable members, so that inserting a list into itself (or setting a member to the
                  # list that holds it) below its end is within the bounds
                  ("self-d5", dict(base, kinds=["list", "char"], keys=["k"], pnames=["_x"], texts=["a"], maxlist=3, maxentries=1, maxdepth=2, maxhist=5, refs="Refs1", slots="Slots2")),
-                 ("scalars-d3", dict(base, slots="Slots1", kinds=["char", "numb", "list", "na", "unk"], keys=["k"], pnames=["_x"], texts=SCALAR_TEXTS, quotes=[0, 1], getnum=["get_number", "get_su"], maxlist=1, maxhist=3))]
+                 ("scalars-d3", dict(base, slots="Slots1", kinds=["char", "numb", "list", "na", "unk"], keys=["k"], pnames=["_x"], texts=SCALAR_TEXTS, quotes=[0, 1], getnum=["get_number", "get_su"], maxlist=1, maxhist=3)),
+                 # one step deeper on strings alone: give a text, change its quoting, give the same / another text again
+                 ("strings-d4", dict(base, slots="Slots1", kinds=["char"], keys=["k"], pnames=["_x"], texts=["a", "12", "a b"], quotes=[0, 1], getnum=["get_number"], maxlist=1, maxhist=4))]
     else:
         plans = [("numbers-d5", dict(base, kinds=["char", "list", "table"], keys=["k"], pnames=["_x"], numtexts=["1.5(2)", "-3e2"], maxhist=5)),
                  ("lists-tables-d5", dict(base, maxhist=5, slots="Slots3", refs="Refs2", keys=["k", "K", "e1", "e2", "bad"], kinds=["char", "numb", "list", "table", "na", "unk"])),
